@@ -91,9 +91,14 @@ C02_ProbeUsable(o) == \A k \in DOMAIN o.probes :
 (* C07, allocator level: automatic allocation fails only when no pool it    *)
 (* may use offers an admissible address set                                 *)
 C07_FailOnlyIfEmpty(j, o) ==
-  (~o.ok /\ o.act.op = "Allocate" /\ SameWalk(j, i) /\ Mem(Trace[j])[o.act.s] = NULL) =>
-     LET L == o.layout  pre == Mem(Trace[j])  s == o.act.s  r == Req(o.act.r)
-     IN \A q \in PinnedFor(L, s) \cup UnpinnedAuto(L) : ~Offers(L, pre, q, s, r)
+  /\ (~o.ok /\ o.act.op = "Allocate" /\ SameWalk(j, i) /\ Mem(Trace[j])[o.act.s] = NULL) =>
+       LET L == o.layout  pre == Mem(Trace[j])  s == o.act.s  r == Req(o.act.r)
+       IN \A q \in PinnedFor(L, s) \cup UnpinnedAuto(L) : ~Offers(L, pre, q, s, r)
+  (* ... and allocation from a requested pool fails only when that pool offers none *)
+  /\ (~o.ok /\ o.act.op = "AllocateFromPool" /\ SameWalk(j, i) /\ Mem(Trace[j])[o.act.s] = NULL
+         /\ HasPool(o.layout, o.act.pool)) =>
+       LET L == o.layout  pre == Mem(Trace[j])  s == o.act.s  r == Req(o.act.r)
+       IN ~Offers(L, pre, PoolNamed(L, o.act.pool), s, r)
 
 ----------------------------------------------------------------------------
 (* C03, allocator level: gaining the address of the missing family keeps the address already held *)
